@@ -146,6 +146,9 @@ func (s Stats) Dump() {
 	}
 }
 
+// St is the global distribution counter; RunLines dumps it as `#stat` lines after the last op.
+var St = Stats{}
+
 // RunLines feeds every op line of stdin to f and prints `op | result`. A panic in f is a result
 // ("panic:<first line>"), a call exceeding the deadline is "hang" (the goroutine is abandoned).
 func RunLines(deadline time.Duration, f func(toks []string) string) {
@@ -161,6 +164,7 @@ func RunLines(deadline time.Duration, f func(toks []string) string) {
 		Emit("%s | %s", line, res)
 		Flush()
 	}
+	St.Dump()
 	Flush()
 }
 
